@@ -159,6 +159,57 @@ CHECKS = {
         'Fisher combination uninterpreted per list length; counterexamples '
         'replayed with the real CombinedPValue (model values, then a grid of '
         'concrete histories); known finding F8'),
+    'C16': (
+        True, '5/C16',
+        'symbolic execution of SetTestResult / GetHighestSeverity / '
+        'AttachFactors / _CheckArtifacts / CheckIssuerKey.Check and every '
+        'RSA single check on fake protobuf messages with symbolic verdicts '
+        'and severities (pysym); z3 decides the bookkeeping invariants after '
+        'every call history',
+        'Bounded symbolic model checking: histories of 1..2 (3) '
+        'SetTestResult calls on fresh and pre-annotated TestInfo (one entry '
+        'per name, result = OR, severity = max, weak monotone, version kept); '
+        'factor-set union over 3 calls; _CheckArtifacts with 0..3 checks; '
+        'CheckIssuerKey for 1..2 (3) signatures with equal or distinct '
+        'issuer keys and arbitrary EC verdicts; each RSA single check leaves '
+        'exactly one entry with the documented severity, weak iff positive, '
+        'return = OR, on the batches [k1,k2], [k2], [k2,k1].',
+        'fake messages generated from paranoid.proto (proto3 MergeFrom / '
+        'CopyFrom modelled); kernels and CheckAllEC by contract; replays on '
+        'real protobuf classes'),
+    'C17': (
+        True, '5/C17',
+        'relational symbolic execution: the real Check of each RSA single '
+        'check runs on [k1,k2], [k2] and [k2,k1] in one path with memoised '
+        'contract stubs for the numeric kernels; z3 decides equality of '
+        'entries and attached factors across the three runs',
+        'Bounded symbolic model checking of the plumbing: for 13 RSA single '
+        'checks (18 constructor variants incl. custom pattern-size lists and '
+        'Storage) and symbolic moduli of two different sizes, the verdict, '
+        'severity and recorded factors of a key are identical alone, in a '
+        'batch, at either position, with the same check object used three '
+        'times. EC table history is covered by C10; aggregate GCD plumbing '
+        'by C03.',
+        'kernels are deterministic functions of their arguments (memoised '
+        'outcome variables); counterexamples confirmed by a concrete '
+        'differential oracle over witness moduli with the real kernels'),
+    'C18': (
+        True, '5/C18',
+        'symbolic execution of checks and kernels with "no feasible '
+        'exception path" as the obligation (pysym); each raising path is '
+        'decided infeasible by z3 or replayed on the real code',
+        'Bounded symbolic model checking of totality: RSA single checks on '
+        'batches of 1..2 keys; factoring kernels for all n >= 2^63 (bit-'
+        'level ones for 6..7 (9)-bit n); CheckSmallUpperDifferences at every '
+        'size class boundary; EC validity / weak-curve / weak-private-key '
+        'checks for batches 0..2 over known, binary and undefined curve ids '
+        'with coordinates up to 2^530; CheckECKeySmallDifference with '
+        'coordinates in [0, 2p); nonce checks with 1, 2, 24 (.., 48) '
+        'signatures and a havocked lattice reduction; ground runs of the '
+        'entry points on empty batches and degenerate moduli.',
+        'lll.reduce / BatchMultiplyG / ExtendedBatchDL / HNP-for-curve by '
+        'contract; Cr50 internal sanity branch assumed unreachable; text '
+        'rendering of symbolic coordinates is a placeholder'),
 }
 
 NOT_APPLICABLE = {
